@@ -162,7 +162,16 @@ fn directed(ctx: &mut Ctx) {
             let tlvs: Vec<Tlv> = types.iter().map(|t| Tlv::new(*t, vec![0u8; (*t % 3) as usize])).collect();
             let b = encode(0, 1, &[7; 12], &tlvs);
             let half: Vec<u16> = types.iter().copied().step_by(2).collect();
-            let o = Opts { creds: vec![creds.clone()], police: vec![(vec![], vec![]), (half, vec![0x0006]), (types.clone(), vec![])], deep: false, typed: false };
+            // long `required` lists as well: everything present (in message order and reversed), and
+            // everything present plus absent ones at both ends
+            let rev: Vec<u16> = types.iter().rev().copied().collect();
+            let padded: Vec<u16> = [0x7e01u16].iter().chain(types.iter()).chain([0x7e02u16].iter()).copied().collect();
+            let o = Opts {
+                creds: vec![creds.clone()],
+                police: vec![(vec![], vec![]), (half, vec![0x0006]), (types.clone(), vec![]), (types.clone(), types.clone()), (types.clone(), rev), (types.clone(), padded)],
+                deep: false,
+                typed: false,
+            };
             check_buffer(ctx, &b, &o);
             ctx.eval();
             ctx.count("many-types-policed");
